@@ -75,6 +75,15 @@ def phase_lines():
         return None
 
 
+_LINES = []
+
+
+def PHASE_LINES():
+    if not _LINES:
+        _LINES.append(phase_lines())
+    return _LINES[0]
+
+
 # ------------------------------------------------------------------------------------------------
 class FakeTimer:
     def __init__(self, sim, interval, function):
@@ -144,7 +153,7 @@ class Sim:
         self.groups = []            # model events, one group per harness event
         self.inj = random.Random(inj_seed)
         self.inject = inject
-        self.lines = phase_lines() if inject else None
+        self.lines = PHASE_LINES()
         self.monitor = Monitor(self)
         self.conn = amqpstorm.Connection('localhost', 'guest', 'guest', heartbeat=(0 if T is None else T), lazy=True)
         conn = self.conn
@@ -227,6 +236,7 @@ class Sim:
         if kind == 'adv':
             self.advance(Fraction(ev[1]), g)
         elif kind == 'tick':
+            self.forced = (ev[1], ev[2]) if len(ev) == 3 else None
             if self.timers:
                 nxt = min(self.timers, key=lambda t: (t.deadline, t.id))
                 if nxt.deadline > self.now:
@@ -284,6 +294,7 @@ class Sim:
             self.probe(g)
         else:
             raise ValueError(ev)
+        self.forced = None
         self.groups.append(g)
         self.monitor.after_event()
 
@@ -341,7 +352,7 @@ class Sim:
                 b = lines[frame.f_lineno]
                 if b not in seen:
                     seen.append(b)
-                    g.extend(self.injection())
+                    g.extend(self.injection(b))
                     g.append('ecm'[b])
             return local
 
@@ -373,9 +384,20 @@ class Sim:
     def all_dead(self):
         return [x for l in self.all_lists for x in l if 'Connection dead' in str(x)]
 
-    def injection(self):
-        """reads/writes by other threads between two phases of a running check"""
+    forced = None
+
+    def injection(self, b):
+        """reads/writes by other threads between two phases of a running check (b = boundary 0..2)"""
         out = []
+        if self.forced is not None:
+            fb, kind = self.forced
+            if fb == b:
+                if kind == 'r':
+                    out += ['r'] * self.deliver(HB_BYTES)
+                else:
+                    self.app_write(1)
+                    out.append('w')
+            return out
         if not self.inject:
             return out
         while self.inj.random() < 0.18:
@@ -666,7 +688,7 @@ def check(rep):
             record(d['T'], d['events'], sim, projs, d.get('inj_seed', 0), d.get('inject', False), 'corpus')
 
     # (a) exhaustive small sequences
-    plan = [(2, 6, 7), (3, 6, 7), (1, 4, 5), (10, 4, 5), (60, 4, 5), (600, 4, 5), (0, 4, 5), (None, 4, 5), (-1, 4, 5)]
+    plan = [(2, 6, 8), (3, 6, 7), (1, 4, 5), (10, 4, 5), (60, 4, 5), (600, 4, 5), (0, 4, 5), (None, 4, 5), (-1, 4, 5)]
     for T, lq, lt in plan:
         L = lt if thorough else lq
         for n in range(0, L + 1):
@@ -684,11 +706,26 @@ def check(rep):
                 evs = [('setopen', True)] + [(ALPHABET + extra)[i] for i in seq]
                 sim, projs = run_history(T, evs, 0, False)
                 record(T, [list(e) for e in evs], sim, projs, 0, False, 'exhaustive-guard')
+    # every sequence in which a check may be interleaved with one read or write at one of its three
+    # inner boundaries (between write-test/send, read-test, reset, re-arm)
+    if PHASE_LINES():
+        inj_letters = [('tick', b, k) for b in (0, 1, 2) for k in ('r', 'w')]
+        letters = ALPHABET + inj_letters
+        for T, L in ((2, 5 if thorough else 4), (3, 4 if thorough else 3)):
+            for n in range(1, L + 1):
+                for seq in itertools.product(range(len(letters)), repeat=n):
+                    if not any(i >= len(ALPHABET) for i in seq):
+                        continue
+                    evs = [('setopen', True)] + [letters[i] for i in seq]
+                    sim, projs = run_history(T, evs, 0, False)
+                    record(T, [list(e) for e in evs], sim, projs, 0, False, 'exhaustive-interleaved')
+    else:
+        rep.count('kind', 'phase-boundaries-not-recognised')
     rep.exhaustive = True
 
     # (b) long random traffic patterns with intra-check injections
-    ntr = 40 if thorough else 6
-    length = 600 if thorough else 250
+    ntr = 100 if thorough else 12
+    length = 800 if thorough else 300
     for T in TS:
         for k in range(ntr):
             evs = gen_trace(rng, T, length)
